@@ -1,5 +1,7 @@
 import LcmProofs.Input
 import LcmProofs.Congr
+import LcmProofs.ParamsSolve
+import LcmProps.Examples
 import Mathlib.Data.String.Basic
 import Mathlib.Order.Basic
 namespace Lcm
@@ -109,5 +111,21 @@ theorem C07_beta_once (m : Model) (P : Params) (g : Groups) (t : Nat) (env0 : En
   obtain ⟨det, _, wrows, _, ev, _, hq⟩ := rest
   simp only [Option.some.injEq, Prod.mk.injEq] at hq
   exact ⟨u, ev, hq.1.symm, hu⟩
+
+
+/-- **routing for the executable `solve`, every period**: two parameter sets that agree on `beta`, on the transition
+arrays and on the value stored *under each function's own name for each of that function's own arguments* give the same
+value arrays. Whatever else a parameter set contains - the same parameter name under another function, entries for
+names that are not arguments, entries for functions that do not exist - never reaches any function. -/
+theorem C07_solve_reads_own_slots_only (m : Model) (P P' : Params) (h : SameSlots m P P') (j : Nat) (hj : j < m.nPeriods) :
+    (solve m P' true).getD (m.nPeriods - 1 - j) default = (solve m P true).getD (m.nPeriods - 1 - j) default :=
+  solve_sameSlots h j hj
+
+-- non-vacuity: kappa stored under a constraint that does not take it, and under a function that does not exist
+def Ex.consParams' : Params :=
+  { Ex.consParams with funcs := Ex.consParams.funcs ++ [("budget_constraint", [("kappa", 99)]), ("ghost", [("kappa", -7)])] }
+#guard (Ex.consModel.functions.all fun f => f.args.all fun p =>
+  Ex.consParams'.get? f.name p == Ex.consParams.get? f.name p)
+#guard ((solve Ex.consModel Ex.consParams').map (·.toFlat)) == ((solve Ex.consModel Ex.consParams).map (·.toFlat))
 
 end Lcm
